@@ -5,6 +5,7 @@ import MysticVerif.Basic.Proto
 import MysticVerif.Model.Dsl
 import MysticVerif.Model.Strategy
 import MysticVerif.Model.RefFmin
+import MysticVerif.Model.NMInit
 import MysticVerif.Model.Powell
 import MysticVerif.Model.Brent
 import MysticVerif.Drv.SolverDrv
@@ -50,20 +51,20 @@ def handleStrat (args : List Val) : String := Id.run do
 /-! ### Nelder-Mead: `fmin (which ref|mystic) (cost (scalar e)) (x0 (..)) (xtol f) (ftol f) (maxiter n) (maxfun n)
                           (zdelt f) (radius f)` -/
 
-def maxF (a b : Float) : Float := if a < b then b else a
-
-/-- `max(ravel(abs(sim[1:]-sim[0]))) <= xtol and max(abs(fsim[0]-fsim[1:])) <= ftol` -/
+/-- `max(ravel(abs(sim[1:]-sim[0]))) <= xtol and max(abs(fsim[0]-fsim[1:])) <= ftol`: Model/NMInit.lean `crtConv` at Float -/
 def convF (xtol ftol : Float) (sim : List (List Float × Float)) : Bool :=
-  match sim with
-  | [] => false
-  | (x0, f0) :: rest =>
-    let dx := rest.foldl (fun m p => (List.zipWith (fun a b => (a - b).abs) p.1 x0).foldl maxF m) (-(1.0 / 0.0))
-    let df := rest.foldl (fun m p => maxF m (f0 - p.2).abs) (-(1.0 / 0.0))
-    decide (dx ≤ xtol) && decide (df ≤ ftol)
+  crtConv Float.abs Float.abs xtol ftol sim
 
-/-- reference l.196-201: `(1+nonzdelt)*y[k]` if `y[k] != 0` else `zdelt` -/
+/-- the exact-zero test of both programs at Float: `y != 0` / `val == 0` (both signed zeros, nothing else) -/
+def isZeroF (v : Float) : Bool := v == 0.0
+
+/-- reference l.196-201: `(1+nonzdelt)*y[k]` if `y[k] != 0` else `zdelt` (Model/NMInit.lean `refInitVal`, nonzdelt = 0.05) -/
 def refVal (zdelt : Float) (x0 : List Float) : List Float :=
-  x0.map fun y => if y != 0.0 then (1.0 + 0.05) * y else zdelt
+  refInitVal isZeroF 1.0 0.05 zdelt x0
+
+/-- mystic l.136-137: `val = x0*(1+radius); val[val==0] = radius**2 * 0.1` (Model/NMInit.lean `mysticInitVal`) -/
+def mysticVal (radius : Float) (x0 : List Float) : List Float :=
+  mysticInitVal isZeroF 1.0 radius 0.1 x0
 
 def hasTie (sim : List (List Float × Float)) : Bool :=
   let es := sim.map Prod.snd
@@ -97,8 +98,8 @@ def handleFmin (args : List Val) : String := Id.run do
       let r := refFmin cost.eval c (convF xtol ftol) (refVal zdelt) x0 maxiter maxfun
       (r, tieScan cost.eval c (refVal zdelt) x0 (r.iterations - 1))
     else
-      let r := mysticFmin su.obj c 0.0 (convF xtol ftol) (SolverDrv.mkVal none radius) x0 maxiter maxfun
-      (r, tieScan (fun y => cost.eval y + 0.0) c (SolverDrv.mkVal none radius) x0 (r.iterations - 1))
+      let r := mysticFmin su.obj c 0.0 (convF xtol ftol) (mysticVal radius) x0 maxiter maxfun
+      (r, tieScan (fun y => cost.eval y + 0.0) c (mysticVal radius) x0 (r.iterations - 1))
   let r := out.1
   let x := (r.sim.head?.map Prod.fst).getD []
   let fhead := (r.sim.head?.map Prod.snd).getD (0.0 / 0.0)
